@@ -8,7 +8,7 @@ import (
 	"verif/harness/pbt"
 )
 
-var admissionPart = pbt.Part[Case]{Name: "admission", Quick: 12000, Thorough: 240000, Gen: genCase, Check: checkCase}
+var admissionPart = pbt.Part[Case]{Name: "admission", Quick: 80000, Thorough: 1500000, Gen: genCase, Check: checkCase}
 
 // TestProp is the entry point the driver runs in every shard.
 func TestProp(t *testing.T) {
@@ -18,7 +18,7 @@ func TestProp(t *testing.T) {
 	r.Assume("reference input coercion (harness/internal/inputref, written from spec §3 input coercion and §6.1.2) is the oracle; it is validated on the spec's own coercion tables and re-checks the generator's coercible-by-construction claim (disagreements are discarded and counted)",
 		"accepted = at least one request reached the fake subgraph; rejected = Execute returned an error (or wrote errors) before any subgraph request",
 		"Int given an integral number spelled with fraction/exponent (1.0, 1e2) is not generated (gray zone)")
-	r.RequireLabel("agree:accept", "agree:reject", "msg:variable-named", "msg:path-compatible", "msg:sentinels-checked",
+	r.RequireLabel("agree:accept", "agree:reject", "raw:agree", "msg:variable-named", "msg:path-compatible", "msg:sentinels-checked",
 		"fault:null-in-nonnull", "fault:missing-required-field", "fault:unknown-field", "fault:wrong-kind", "fault:bad-enum-value", "fault:oneof-count", "fault:missing-variable")
 	r.Regress(dispatch())
 	r.RunProbes(probes())
@@ -86,10 +86,10 @@ func probes() pbt.Probes {
 		fNullItem: probeOf(fNullItem, probeCase("fDef", "Def", `{"v":{"t":[null]}}`, "object"), probeCase("fDef", "Def", `{"v":{"r":null}}`, "object")),
 		fShift: probeOf(fShift, probeCase("fIns", "[In]", `{"v":[1,{"a":-5},{"a":-4,"d":"Y"}]}`, "object"),
 			probeCase("fIns", "[In]", `{"v":[null,{"a":1}]}`, "object")),
-		fNoVars: probeOf(fNoVars, probeCase("fReq", "Int!", "", "absent"), probeCase("fReq", "Int!", "null", "null")),
-		fVarDflt: probeOf(fVarDflt, Case{Schema: probeSchema, Decls: []ir.VarDecl{{Name: "v", Type: "Int!", Default: "0"}}, Query: "query($v: Int! = 0){ fIntsR(v: [$v]) }", VarsForm: "object", Vars: "{}", Break: "probe"}),
-		fSynth: probeOf(fSynth, Case{Schema: probeSchema, Decls: []ir.VarDecl{{Name: "v", Type: "Int"}}, Query: "query($v: Int){ fIntsR(v: [$v]) }", VarsForm: "object", Vars: `{"v":"zq5x8k2m"}`, Break: "probe"}),
-		fIntMin: probeOf(fIntMin, Case{Schema: probeSchema, Decls: []ir.VarDecl{{Name: "v", Type: "Int", Default: intMin}}, Query: "query($v: Int = " + intMin + "){ fInt(v: $v) }", VarsForm: "object", Vars: `{"v":1}`, Break: "probe"}),
+		fNoVars:   probeOf(fNoVars, probeCase("fReq", "Int!", "", "absent"), probeCase("fReq", "Int!", "null", "null")),
+		fVarDflt:  probeOf(fVarDflt, Case{Schema: probeSchema, Decls: []ir.VarDecl{{Name: "v", Type: "Int!", Default: "0"}}, Query: "query($v: Int! = 0){ fIntsR(v: [$v]) }", VarsForm: "object", Vars: "{}", Break: "probe"}),
+		fSynth:    probeOf(fSynth, Case{Schema: probeSchema, Decls: []ir.VarDecl{{Name: "v", Type: "Int"}}, Query: "query($v: Int){ fIntsR(v: [$v]) }", VarsForm: "object", Vars: `{"v":"zq5x8k2m"}`, Break: "probe"}),
+		fIntMin:   probeOf(fIntMin, Case{Schema: probeSchema, Decls: []ir.VarDecl{{Name: "v", Type: "Int", Default: intMin}}, Query: "query($v: Int = " + intMin + "){ fInt(v: $v) }", VarsForm: "object", Vars: `{"v":1}`, Break: "probe"}),
 		fNullDflt: probeOf(fNullDflt, Case{Schema: probeSchema, Decls: []ir.VarDecl{{Name: "v", Type: "[Int!]", Default: "null"}}, Query: "query($v: [Int!] = null){ fIntsR(v: $v) }", VarsForm: "object", Vars: "{}", Break: "probe"}),
 		fSingle: probeOf(fSingle, probeCase("fSing", "Sing", `{"v":{}}`, "object"),
 			Case{Schema: probeSchema, Decls: []ir.VarDecl{{Name: "v", Type: "[[Int]]", Default: "[1]"}}, Query: "query($v: [[Int]] = [1]){ fLL(v: $v) }", VarsForm: "object", Vars: "{}", Break: "probe"}),
